@@ -551,6 +551,8 @@ def run(ctx):
     rules.append(rule_pin(ctx, fam_names))
     # ---------------------------------------------------------------- SIB
     rules.append(P.rule_sib(ctx, 'C03-SIB'))
+    from ..rules import dscope
+    rules.append(dscope.rule_dscope(ctx))
     return rules
 
 
